@@ -30,6 +30,18 @@ CHECKS = {
  "C08": dict(tech="runtime monitoring: verdict of into_struct/extend_struct compared with an independent flat pass over the same reader events",
    text="1.6M (quick) / 48M (thorough) damaged and valid inputs, default reader configuration, every buffered reader kind; Ok/Err must agree with the first fault found by a second reader of the same kind (reader error, attribute error, non-UTF-8 name/key/text, no element), and a syntax error must come back as the variant carrying the reader's error and one of its two positions. The evidence holds the histogram of expected verdict classes.",
    note="Trusts quick-xml's own event stream as the definition of a syntax error; error variants other than the syntax-error one are not constrained.", ref="4/C08"),
+ "C05": dict(tech="runtime monitoring: repeated execution under fresh hash seeds, threads and processes with byte-equality oracle; canary HashMap proves iteration orders varied",
+   text="Each history (collision-heavy profile) is parsed and rendered 40 (quick) / 64 (thorough) more times in-process, by 4 threads (independent runs and concurrent rendering of one shared tree) and by 3 / 8 fresh processes; all bytes must be equal. A canary HashMap with the same keys records that >= 2 iteration orders were actually seen; a run with too few such cases is inconclusive.",
+   note="Determinism across repetitions observed, not proved; relies on std RandomState giving each HashMap a fresh key.", ref="4/C05"),
+ "C06": dict(tech="runtime monitoring: algebraic laws over extension histories (permutation, idempotence, neutral inputs, monotonicity per step, equivalence with batch reference inference, failed extension => Err)",
+   text="For each history of 2..6 documents: canonical schema after every step is monotone, final schema equals the reference inference of the union, every permutation (k<=4) / sampled permutations give the same schema, a document supplied twice changes nothing, element-less inputs change no byte, and a damaged extension (fault confirmed by the C08 oracle) returns Err.",
+   note="Identifiers/struct names/order are deliberately outside the compared schema.", ref="4/C06"),
+ "C10": dict(tech="runtime monitoring: metamorphic relation between renderings of one tree (sentinel-substitution byte-equality oracle)",
+   text="Every tree is rendered with private-use sentinel strings and then with presets, hostile random option strings and a prefix aimed at prefix+name == identifier; each output must equal the sentinel rendering with the three strings substituted (derive dropped when empty, attribute rename dropped exactly when bound name equals identifier). Presets and the derive builder are compared with the literals they stand for.",
+   note="Sort order itself is C09's subject; here each sort order has its own sentinel rendering.", ref="4/C10"),
+ "C11": dict(tech="runtime monitoring: metamorphic pairs (document, rewritten document) with byte-equality oracle",
+   text="Each history is compared with ~10 rewritten variants (empty-element spelling, expand_empty_elements, reader kinds and buffer sizes down to 1, quoting/blank/character-reference syntax, attribute values, text/CDATA swaps and splits, comments, PIs, XML declaration, DOCTYPE); sorted and unsorted renderings must be byte-identical.",
+   note="Whitespace-only text is only rewritten to whitespace-only text; the generator re-checks that a rewrite leaves the reference schema unchanged.", ref="4/C11"),
 }
 
 NOT_YET = {}
